@@ -10,6 +10,7 @@ import (
 	"sync/atomic"
 	"time"
 
+	"github.com/facebookincubator/dns/dnsrocks/db"
 	"github.com/miekg/dns"
 
 	"verif/internal/gen"
@@ -140,8 +141,12 @@ func c13Check(q *dns.Msg, res harness.Result, tcp bool) (msg string, key string)
 		}
 		return fmt.Sprintf("reply question %v, query question %v", back.Question, wantQ), k
 	}
-	if adv := c13Advertised(q, tcp); len(res.Wire) > adv && !back.Truncated {
-		return fmt.Sprintf("reply of %d bytes exceeds the advertised %d bytes without TC", len(res.Wire), adv), ""
+	if adv := c13Advertised(q, tcp); len(res.Wire) > adv {
+		if !back.Truncated {
+			return fmt.Sprintf("reply of %d bytes exceeds the advertised %d bytes without TC", len(res.Wire), adv), ""
+		}
+		// a reply that was truncated for the client's buffer has to fit that buffer
+		return fmt.Sprintf("truncated reply (TC set) of %d bytes still exceeds the advertised %d bytes", len(res.Wire), adv), ""
 	}
 	if badvers {
 		if back.Rcode != dns.RcodeBadVers {
@@ -177,7 +182,7 @@ func c13StripUnknown(q *dns.Msg) (*dns.Msg, bool) {
 }
 
 func runC13(r *report.Run) {
-	r.SetRule("seeded hostile but wire-valid messages (every message is packed and unpacked first): names incl. root, 63-byte labels, 255-byte names, escapes, wildcard labels and names of the loaded file; 24 qtypes incl. DS/ANY/OPT/AXFR/0/65535; 9 classes; opcodes and header bits; 0-3 questions; 0-3 OPT records, EDNS versions 0-255, UDP sizes 0-65535, DO, extended rcode, option lists with unknown codes and empty payloads, ECS family 0/1/2/3/65535 with any source/scope and host bits set; stray records. Sent over UDP and TCP writers to handlers loaded with generated files of every layout (incl. root zone, root delegation, TLD zone, empty file) on CDB, RocksDB v1 and v2. non-trivial = message that got a reply other than plain REFUSED, or that carries EDNS; distinct by wire bytes+database; one question in ten carries a type the DNS library has no mnemonic for; the same kind of messages is then sent from 16 goroutines at once to shared handlers in a child process (a fatal runtime error there is the violation)")
+	r.SetRule("seeded hostile but wire-valid messages (every message is packed and unpacked first): names incl. root, 63-byte labels, 255-byte names, escapes, wildcard labels and names of the loaded file; 24 qtypes incl. DS/ANY/OPT/AXFR/0/65535; 9 classes; opcodes and header bits; 0-3 questions; 0-3 OPT records, EDNS versions 0-255, UDP sizes 0-65535, DO, extended rcode, option lists with unknown codes and empty payloads, ECS family 0/1/2/3/65535 with any source/scope and host bits set; stray records. Sent over UDP and TCP writers to handlers loaded with generated files of every layout (incl. root zone, root delegation, TLD zone, empty file) on CDB, RocksDB v1 and v2. non-trivial = message that got a reply other than plain REFUSED, or that carries EDNS; distinct by wire bytes+database; one question in ten carries a type the DNS library has no mnemonic for; the same kind of messages is then sent from 16 goroutines at once to shared handlers in a child process (a fatal runtime error there is the violation); names whose answers exceed small buffers (one 600-1400 byte TXT, 30 TXT records) are asked over UDP with buffer sizes 0/512/513/600/900/1232/1500/4096, with and without a client-subnet option: every reply, truncated or not, has to fit the advertised size")
 	r.Assume("a query with several questions is answered for its first question (the repository's own TestDNSDBMultipleQuestions pins that); the unknown-option rule is checked by re-sending the query without private-use option codes and comparing the replies")
 	nworlds := r.Pick(20, 400)
 	perWorld := r.Pick(600, 1500)
@@ -202,6 +207,41 @@ func runC13(r *report.Run) {
 			r.Count("databases_with_cache_on", 1)
 		}
 		ips := []string{"10.1.0.5", "203.0.113.9", "2001:db8:1::5", "::1"}
+		// directed: the names whose answers do not fit small buffers, asked over UDP with every buffer size around the
+		// limits and with/without a client-subnet option (the echoed option counts against the buffer as well)
+		for _, o := range w.Owners {
+			if !strings.HasPrefix(o, "huge.") && !strings.HasPrefix(o, "many.") && o != "huge" && o != "many" {
+				continue
+			}
+			for _, sz := range []int{0, 512, 513, 600, 900, 1232, 1500, 4096} {
+				for _, ecs := range []string{"", "198.51.1.0/24", "2001:db8:e1::/48"} {
+					q := harness.MakeQuery(gen.Presentation(o), dns.TypeTXT, uint16(sz))
+					if sz > 0 || ecs != "" {
+						size := sz
+						if size == 0 {
+							size = 512
+						}
+						harness.AddECS(q, ecs, uint16(size))
+					}
+					for _, sv := range servers.srv {
+						res := sv.Serve(q.Copy(), harness.NewWriter("10.1.0.5", false), 8)
+						r.Count("messages", 1)
+						r.Count("directed_oversized_queries", 1)
+						if res.Msg != nil && res.Msg.Truncated {
+							r.Count("truncated_replies", 1)
+							if ecs != "" {
+								r.Count("truncated_replies_to_queries_with_client_subnet", 1)
+							}
+						}
+						if msg, key := c13Check(q, res, false); msg != "" {
+							wire, _ := q.Pack()
+							r.Violation(key, fmt.Sprintf("%s (%s): %s; query: %s", sv.B.Name, layoutName(w), msg, strings.ReplaceAll(q.String(), "\n", " | ")),
+								c13Case{Cache: cacheOn, WorldSeed: seed, Layout: layout, Backend: sv.B.Name, QueryHex: hex.EncodeToString(wire), Query: q.String(), IP: "10.1.0.5", TCP: false})
+						}
+					}
+				}
+			}
+		}
 		for n := 0; n < perWorld; n++ {
 			q, wire := gen.HostileMsg(rng, w.Owners)
 			if q == nil {
@@ -220,6 +260,9 @@ func runC13(r *report.Run) {
 				r.Count(fmt.Sprintf("reply_rcode_%d", res.Msg.Rcode), 1)
 				if res.Msg.Truncated {
 					r.Count("truncated_replies", 1)
+					if db.FindECS(q) != nil {
+						r.Count("truncated_replies_to_queries_with_client_subnet", 1)
+					}
 				}
 			}
 			if q.IsEdns0() != nil || (res.Msg != nil && res.Msg.Rcode != dns.RcodeRefused) {
